@@ -248,9 +248,47 @@ def prog_shard(asm, acc, sh, deadline):
             break
 
 
+DIST_KINDS = [('b', 'beq'), ('b', 'bltu'), ('bz', 'bne'), ('jal', 0), ('jal', 1), ('c', 'c.j'), ('c', 'c.jal'), ('c', 'c.beqz'), ('c', 'c.bnez')]
+DIST_D = [250, 254, 256, 258, 2046, 2048, 2050, 4090, 4094, 4096, 4098, (1 << 20) - 2, 1 << 20, (1 << 20) + 2]
+
+
+def dist_shard(asm, acc, sh, deadline):
+    """pc-relative operands given as labels: a target whose final offset is representable must be accepted (also under -c, where
+    the compressed form is chosen on label values that still move), an unrepresentable one refused"""
+    from . import c03
+    for case in sh['cases']:
+        scratch = core.new_acc()
+        c03.run_sweep_case(asm, scratch, dict(case))
+        acc['n'] += 1
+        x = tuple(case['x'])
+        lo, hi = c03.reach(x)
+        sign = 1 if case['dir'] == 'fwd' else -1
+        reachable = lo <= sign * case['D'] <= hi
+        cell = '%s:%s %s %d %s' % (x[0], x[1], case['dir'], case['D'], 'with -c' if case['compress'] else 'without -c')
+        acc['ntkeys'].add(core.ckey('dist', cell, case['filler']))
+        acc['ctr']['distance_cases'] += 1
+        rcase = dict(case, kind='dist')
+        if scratch['ctr']['refused_reachable']:
+            why = sorted(scratch['seen'].get('refused_reachable_cells', ['?']))[0]
+            core.add_viol(acc, 'representable pc-relative operand refused: %s (label exactly %d bytes %s): %s' % (
+                cell, case['D'], 'ahead' if sign > 0 else 'behind', why.split(':', 2)[-1]), rcase, {})
+        elif scratch['ctr']['sweep_assembled'] and not reachable:
+            core.add_viol(acc, 'unrepresentable pc-relative operand accepted: %s' % cell, rcase, {})
+        elif scratch['ctr']['sweep_assembled']:
+            acc['ctr']['distance_accepted_ok'] += 1
+        elif scratch['ctr']['refused_unreachable']:
+            acc['ctr']['distance_refused_ok'] += 1
+        if time.time() > deadline:
+            acc['truncated'] += 1
+            break
+
+
 def run_shard(sh, deadline):
     asm = core.load_asm()
     acc = core.new_acc()
+    if sh['kind'] == 'dist':
+        dist_shard(asm, acc, sh, deadline)
+        return acc
     if sh['kind'] == 'enc':
         enc_shard(asm, acc, sh['m'], sh['tier'], sh['seed'], deadline)
         core.add_sample(acc, {'encoder_probe': sh['m'], 'calls': acc['n'], 'must_accept': acc['ctr'][operands.ACCEPT],
@@ -266,6 +304,18 @@ def plan(tier, seed):
     nprog = 16 if tier == 'quick' else 64
     per = 400 if tier == 'quick' else 1600
     shards += [{'kind': 'prog', 'idx': i, 'count': per, 'seed': seed} for i in range(nprog)]
+    dcases = []
+    # only fillers whose size does not depend on their own offset (no aligns): the final distance is then linear in the inert gap
+    fillers = ['gap', 'comp', 'li', 'call'] if tier == 'thorough' else None
+    for x in DIST_KINDS:
+        for d in ('fwd', 'bwd'):
+            for D in DIST_D:
+                for compress in (False, True):
+                    for f in (fillers or [['comp', 'gap', 'call', 'li'][(len(dcases) + seed) % 4]]):
+                        dcases.append({'x': list(x), 'dir': d, 'D': D, 'filler': f, 'compress': compress, 'pre': 1 + len(dcases) % 3})
+    dcases.sort(key=lambda c: c['D'])
+    nd = 32
+    shards += [{'kind': 'dist', 'cases': dcases[i::nd]} for i in range(nd)]
     return {'shards': shards, 'budget_s': 240 if tier == 'quick' else 1500, 'exhaustive': False}
 
 
@@ -287,7 +337,9 @@ def classify(v):
 def replay(case):
     asm = core.load_asm()
     acc = core.new_acc()
-    if case['kind'] == 'enc':
+    if case['kind'] == 'dist':
+        dist_shard(asm, acc, {'cases': [{k: v for k, v in case.items() if k != 'kind'}]}, time.time() + 600)
+    elif case['kind'] == 'enc':
         judge(asm, acc, case['m'], case['args'], case.get('kw') or None, set())
     else:
         judge_program(asm, acc, case['m'], case['args'], case.get('kw') or None)
